@@ -747,19 +747,22 @@ class LoginReactor(PacketReactor):
             encryption_response.shared_secret = encrypted_secret
             encryption_response.verify_token = token
 
-            # Forced because we'll have encrypted the connection by the time
-            # it reaches the outgoing queue
-            self.connection.write_packet(encryption_response, force=True)
+            # Hold the write lock from the response until the cipher is in
+            # place, so that no other thread can write in between.
+            with self.connection._write_lock:
+                # Forced because we'll have encrypted the connection by the
+                # time it reaches the outgoing queue
+                self.connection.write_packet(encryption_response, force=True)
 
-            # Enable the encryption
-            cipher = encryption.create_AES_cipher(secret)
-            encryptor = cipher.encryptor()
-            decryptor = cipher.decryptor()
-            self.connection.socket = encryption.EncryptedSocketWrapper(
-                self.connection.socket, encryptor, decryptor)
-            self.connection.file_object = \
-                encryption.EncryptedFileObjectWrapper(
-                    self.connection.file_object, decryptor)
+                # Enable the encryption
+                cipher = encryption.create_AES_cipher(secret)
+                encryptor = cipher.encryptor()
+                decryptor = cipher.decryptor()
+                self.connection.socket = encryption.EncryptedSocketWrapper(
+                    self.connection.socket, encryptor, decryptor)
+                self.connection.file_object = \
+                    encryption.EncryptedFileObjectWrapper(
+                        self.connection.file_object, decryptor)
 
         elif packet.packet_name == "disconnect":
             # Receiving a disconnect packet in the login state indicates an
